@@ -10,7 +10,7 @@
 From Coq Require Import List NArith Arith Bool.
 From Verif.Common Require Import Prefix.
 From Coq Require Import Permutation.
-From Verif.C43 Require Import Model Spec Proofs Final FinalProofs Blackhole MgrProofs FlushPerm Reflag Peer PoolUpd Chain Fresh FreshOps NR Inv Order.
+From Verif.C43 Require Import Model Spec Proofs Final FinalProofs Blackhole MgrProofs FlushPerm Reflag Peer PoolUpd Chain Fresh FreshOps NR Inv Link Link2 Link3 Link4 Link5 Link6 Order.
 Import ListNotations.
 Open Scope N_scope.
 
@@ -184,14 +184,57 @@ Theorem c43_no_stale_routes : forall (BK : prefix -> Prop),
 Proof. exact inv_history. Qed.
 Print Assumptions c43_no_stale_routes.
 
-(* c43_order_independent at full strength (for every history of the repaired resolver, the kernel routes of the
-   remote destinations = programmed (state_of history)) is NOT proved.  Missing: (a) the trie content as a function
-   of the datastore state (the blockToRoutes / nodeRoutes / workloadIDToCIDRs bookkeeping of OnBlockUpdate and
-   OnWorkloadUpdate, which needs "block keys never overlap"), (b) the block / workload update steps in the chain
-   (there only the kernel-relevant projection of a route stays up to date: Borrowed and the LOCAL/REMOTE_WORKLOAD
-   bits inherited from a parent block are not re-flagged when the parent changes).  The
-   correspondence run compares the real resolver with the function of the final state on every case instead.
-   On the witnesses above the repaired variant does reach the function of the state: *)
+(* (6) c43_order_independent — ORDER INDEPENDENCE at full strength for the current tree (fixed = true):
+       after ANY history of pool, block, node and local-workload updates (any order, reverts, deletions,
+       repeated and out-of-order arrival) the route set held downstream is the FUNCTION OF THE FINAL DATASTORE
+       STATE [state_of ops] (Spec.v: the fold of the history): a CIDR about which the final state says nothing has
+       no route, and every block / borrowed-address / workload route equals [desired (state_of ops) k] (Final.v),
+       the RouteUpdate computed from the state alone -- the same function the theorems c43_remote_route_meets_demand,
+       c43_direct_iff_noencap_or_same_subnet, c43_tunnel_otherwise and the blackhole theorems are about.
+       Proof: the invariant [joint] (Link6.v) = [inv] of (5) + the trie, the node table, allPools, blockToRoutes and
+       workloadIDToCIDRs are the images of the datastore state.
+       Hypotheses on the history, all explicit:
+         - [sep]: BLOCK KEYS NEVER OVERLAP - no address range lies inside two different block keys of the history;
+         - [hop_ok]: every block update uses a key of BK and its routes have distinct destinations inside the block;
+           workload addresses are /32;
+         - [dop_ok]: the destinations of a block value (its CIDR and its non-affine allocations) are pairwise distinct.
+       Scope of the conclusion: CIDRs that are not a node's own address in the final state ([hosts_at] = []) and that
+       carry a block route or a local workload; these are the routes the route managers consume (a host's own /32
+       keeps SameSubnet of its pool un-re-flagged when the local subnet changes; route managers ignore host routes),
+       pure pool CIDR routes are covered by (5) only. *)
+Theorem c43_order_independent : forall (BK : prefix -> Prop),
+  (forall a b x, BK a -> BK b -> covers 32 a x = true -> covers 32 b x = true -> a = b) ->
+  forall ops, Forall (hop_ok BK) ops -> Forall dop_ok ops ->
+  forall k, wfp 32 k ->
+    (ri_valid (entry (state_of ops) k) = false -> aget prefix_eqb (s_out (run true ops)) k = None)
+    /\ (hosts_at (state_of ops) k = [] -> (block_at (state_of ops) k <> None \/ wep_at (state_of ops) k <> O) ->
+        aget prefix_eqb (s_out (run true ops)) k = desired (state_of ops) k).
+Proof. exact order_independent. Qed.
+Print Assumptions c43_order_independent.
+
+(* the hypotheses are satisfiable by a history with reverts, a borrowed address, a local workload and the local
+   node losing and regaining its IPv4 subnet; and on it the theorem's conclusion is the direct route of (1) *)
+Definition ex_hist : list op :=
+  [w_me; w_peer; w_pl; OpBlock w_block (Some (mkBlock (Some 1) [(167837699, Some 2)])); OpWep 0 [mkP 167837701 32];
+   OpNode 0 (Some None); OpPool w_pool (Some (mkPool Always Never false)); w_pl; w_me; OpBlock w_block (Some (mkBlock (Some 1) []))].
+Example c43_order_independent_hyps :
+  let BK := fun p => p = w_block in
+  (forall a b x, BK a -> BK b -> covers 32 a x = true -> covers 32 b x = true -> a = b)
+  /\ Forall (hop_ok BK) ex_hist /\ Forall dop_ok ex_hist
+  /\ aget prefix_eqb (s_out (run true ex_hist)) w_block = desired (state_of ex_hist) w_block
+  /\ desired (state_of ex_hist) w_block = Some (mkRoute 1 2 (Some 1) (Some 2886729995) true false false).
+Proof.
+  cbv zeta. split; [intros a b x -> ->; reflexivity|].
+  split.
+  { repeat constructor; simpl; auto; try (intros c [<-|[]]; reflexivity);
+      try (intros r H; simpl in H; repeat (destruct H as [<-|H]; [vm_compute; reflexivity|]); destruct H);
+      try (intros [X|X]; [discriminate X|destruct X]); try (intros []). }
+  split.
+  { repeat constructor; simpl; auto; try (intros [X|X]; [discriminate X|destruct X]); try (intros []). }
+  split; vm_compute; reflexivity.
+Qed.
+
+(* on the refutation witnesses the current tree does reach the function of the state: *)
 Example c43_order_witnesses_fixed :
   routes_for (kernel_after true hist_gain) w_block = programmed (state_of hist_gain) w_block
   /\ routes_for (kernel_after true hist_lose) w_block = programmed (state_of hist_lose) w_block
